@@ -39,6 +39,9 @@ type vzOracles struct {
 	lastView map[string]vzViewDigest
 
 	commitsSeen int
+
+	// H-NODE: the chain as the omnipotent environment authored it (height -> hash)
+	advChain map[uint64]string
 }
 
 type vzViewDigest struct {
@@ -56,6 +59,7 @@ func (o *vzOracles) init(w *vzWorld) {
 	o.finalized = map[uint64]string{}
 	o.prescribed = map[uint64]tmconsensus.ValidatorSet{}
 	o.lastView = map[string]vzViewDigest{}
+	o.advChain = map[uint64]string{}
 }
 
 func (o *vzOracles) violate(prop, key, f string, a ...any) {
@@ -85,6 +89,11 @@ func (w *vzWorld) onVotesStored(nd *vzNode, kind string, h uint64, r uint32, c t
 	}
 	w.orc.mu.Lock()
 	defer w.orc.mu.Unlock()
+	for hash, sigs := range c.BlockSignatures {
+		if len(sigs) == 0 {
+			w.orc.violate("C05", "empty-proof-entry-stored/"+kind, "%s wrote %s proofs for %d/%d to the round store with an entry for %x that has no signature", nd.ident(), kind, h, r, hash)
+		}
+	}
 	w.orc.checkSparseAuthentic(nd, "round-store", kind, h, r, c.PubKeyHash, c.BlockSignatures)
 }
 
@@ -318,7 +327,46 @@ func (o *vzOracles) onWireFrame(from *vzNode, cm tmcodec.ConsensusMessage, b []b
 	}
 }
 func (o *vzOracles) onDecoded(nd *vzNode, m *vzMsg, cm tmcodec.ConsensusMessage) {}
-func (o *vzOracles) onHandled(nd *vzNode, m *vzMsg, kind, result string)         {}
+
+// onHandled: what the environment expected of a message it forged (expectation "Cxx:name" =
+// the message must not be reported as accepted).
+func (o *vzOracles) onHandled(nd *vzNode, m *vzMsg, kind, result string) {
+	if o.w.adv == nil || o.w.s.Stopped() {
+		return
+	}
+	o.w.mu.Lock()
+	exp := o.w.adv.expect[m.id]
+	o.w.mu.Unlock()
+	if i := strings.Index(exp, ":"); i > 0 && exp[0] == 'C' {
+		if result == "Accepted" || result == "FutureVerified" {
+			o.mu.Lock()
+			o.violate(exp[:i], "accepted/"+exp[i+1:]+"/"+kind, "%s reported %s for a forged %s message (%s): m%d", nd.ident(), result, kind, exp[i+1:], m.id)
+			o.mu.Unlock()
+		}
+	}
+}
+
+func (o *vzOracles) onReplayResult(nd *vzNode, hdr tmconsensus.Header, proof tmconsensus.CommitProof, expect string, err error) {
+	if o.w.s.Stopped() {
+		return
+	}
+	o.mu.Lock()
+	defer o.mu.Unlock()
+	if err != nil {
+		return
+	}
+	// accepted through header replay = a commit event (C01); the certificate the node holds is judged
+	// where it records the commit (committed-header store, committing view), because an accepted
+	// replay may complete precommits the node already had
+	switch expect {
+	case "foreign-replay":
+		o.violate("C07", "replay-accepted/foreign-validator-set", "%s accepted a replayed header for height %d whose validator set is not the chain's", nd.ident(), hdr.Height)
+	case "foreign-prev-replay":
+		o.violate("C04", "replay-accepted/foreign-predecessor", "%s accepted a replayed header for height %d that names a predecessor other than the committed one", nd.ident(), hdr.Height)
+	case "corrupt-replay":
+		o.violate("C05", "replay-accepted/corrupt-signature", "%s accepted a replayed header for height %d although a certificate signature does not verify", nd.ident(), hdr.Height)
+	}
+}
 
 // ---- C11 + C06 + C05 on views crossing the relays
 
@@ -412,6 +460,27 @@ func (o *vzOracles) checkViewContent(nd *vzNode, where string, v *tmconsensus.Ve
 		for hash, p := range m {
 			sp := p.AsSparse()
 			o.checkSparseAuthenticSet(nd, where, kind, v.Height, v.Round, v.ValidatorSet, []byte(sp.PubKeyHash), map[string][]gcrypto.SparseSignature{hash: sp.Signatures})
+		}
+	}
+	// C05: no proof entry without a signer (an all-invalid message must leave no trace)
+	if o.on["C05"] && !nd.byz {
+		var bs bitset.BitSet
+		for kind, m := range map[string]map[string]gcrypto.CommonMessageSignatureProof{"prevote": v.PrevoteProofs, "precommit": v.PrecommitProofs} {
+			for hash, p := range m {
+				p.SignatureBitSet(&bs)
+				if bs.None() {
+					o.violate("C05", "empty-proof-entry-in-view/"+kind, "%s %s view %d/%d has a %s entry for %x without any signature", nd.ident(), where, v.Height, v.Round, kind, hash)
+				}
+			}
+		}
+		// signatures of previous-commit proofs carried by the proposed headers in the view
+		for _, ph := range v.ProposedHeaders {
+			if ph.Header.Height <= o.w.cfg.initialHeight || len(ph.Signature) == 0 {
+				continue
+			}
+			if vs, ok := o.valSetFor(ph.Header.Height - 1); ok {
+				o.checkSparseAuthenticSet(nd, where+"-prevcommit", "precommit", ph.Header.Height-1, ph.Header.PrevCommitProof.Round, vs, []byte(ph.Header.PrevCommitProof.PubKeyHash), ph.Header.PrevCommitProof.Proofs)
+			}
 		}
 	}
 	// C06: the reported summary equals a recomputation with each validator counted once
@@ -708,17 +777,20 @@ func (o *vzOracles) checkCommittingViewHasCertificate(nd *vzNode, v *tmconsensus
 		return
 	}
 	_ = vs
+	var seen []string
 	for hash, p := range v.PrecommitProofs {
+		power, total, _ := o.certPower(v.Height, v.Round, hash, p.AsSparse().Signatures)
+		seen = append(seen, fmt.Sprintf("%x:%s/%s(%d sigs)", trunc(hash), power, total, len(p.AsSparse().Signatures)))
 		if hash == "" {
 			continue
 		}
-		power, total, _ := o.certPower(v.Height, v.Round, hash, p.AsSparse().Signatures)
 		if isQuorum(power, total) {
 			best = true
 		}
 	}
 	if !best {
-		o.violate("C01", "commit-without-certificate/committing-view", "%s has a committing view at height %d round %d in which no block has valid precommits of more than 2/3 of the prescribed power", nd.ident(), v.Height, v.Round)
+		sort.Strings(seen)
+		o.violate("C01", "commit-without-certificate/committing-view", "%s has a committing view at height %d round %d in which no block has valid precommits of more than 2/3 of the prescribed power (valid power per target: %v)", nd.ident(), v.Height, v.Round, seen)
 	}
 }
 
